@@ -365,6 +365,31 @@ def main(repo: str, outpath: str) -> int:
                         and node.targets[0].id == "pattern"
                     ):
                         regex = const_str(node.value)
+    # HTMLDependency.__init__: the literal key lists of  self._validate_dicts(<arg>, [<keys>])  in order,
+    # and the keys tested on `source` ("href" in source) or ("subdir" in source)
+    req_keys: list[tuple[str, list[str]]] = []
+    src_keys: list[str] = []
+    if core is not None:
+        dep = find_class(core, "HTMLDependency")
+        init = find_def(dep.body, "__init__") if dep is not None else None
+        if init is not None:
+            for node in ast.walk(init):
+                if (isinstance(node, ast.Call) and isinstance(node.func, ast.Attribute)
+                        and node.func.attr == "_validate_dicts" and len(node.args) == 2
+                        and isinstance(node.args[0], ast.Name) and isinstance(node.args[1], ast.List)):
+                    ks = [const_str(e) for e in node.args[1].elts]
+                    if all(k is not None for k in ks):
+                        req_keys.append((node.args[0].id, [k for k in ks if k is not None]))
+                    else:
+                        unrec("HTMLDependency.__init__: non-literal required-key list")
+                if (isinstance(node, ast.Compare) and len(node.ops) == 1 and isinstance(node.ops[0], ast.In)
+                        and const_str(node.left) is not None and isinstance(node.comparators[0], ast.Name)
+                        and node.comparators[0].id == "source"):
+                    src_keys.append(const_str(node.left) or "")
+    rk_rows = ["(" + cstr(a) + ", " + clist([cstr(k) for k in ks], "(list N)") + ")" for a, ks in req_keys]
+    out.append("(* HTMLDependency.__init__: self._validate_dicts(ARG, [KEYS]) calls in order, and the keys looked up in `source` *)")
+    out.append("Definition dep_required_keys : list (list N * list (list N)) :=\n  " + clist(rk_rows, "(list N * list (list N))") + ".")
+    out.append("Definition dep_source_keys : list (list N) :=\n  " + clist([cstr(k) for k in src_keys], "(list N)") + ".")
     if ser_from is None or ser_to is None:
         unrec("serialize_to_script_json: json.dumps(...).replace(lit, lit) not found")
     out.append("(* literals of json.dumps(...).replace(FROM, TO) in HTMLDependency.serialize_to_script_json *)")
